@@ -17,7 +17,7 @@ import (
 func TestC14(t *testing.T) {
 	simkit.Main(t, "C14", components, func(r *simkit.Run) {
 		only := simkit.Only()
-		mode := rapid.SampledFrom([]string{"rate-projection", "rate-projection", "rate-eviction", "rate-eviction", "rate-eviction-lru", "rate-eviction-lru", "rate-eviction-hetero", "conn-twin", "conn-fine", "rate-broken-sink"}).Draw(r.T, "mode")
+		mode := rapid.SampledFrom([]string{"rate-projection", "rate-projection", "rate-eviction", "rate-eviction", "rate-eviction-lru", "rate-eviction-lru", "rate-eviction-hetero", "rate-eviction-ranked", "conn-twin", "conn-fine", "rate-broken-sink"}).Draw(r.T, "mode")
 		if only != "" {
 			mode = only
 		}
@@ -30,6 +30,8 @@ func TestC14(t *testing.T) {
 			c14evictionLRU(r)
 		case "rate-eviction-hetero":
 			c14evictionHetero(r)
+		case "rate-eviction-ranked":
+			c14evictionRanked(r)
 		case "conn-twin":
 			c14connTwin(r)
 		case "rate-broken-sink":
@@ -689,5 +691,105 @@ func c14brokenSink(r *simkit.Run) {
 	r.Probe("rate-broken-sink")
 	r.Sample(func() any {
 		return map[string]any{"mode": "rate-broken-sink", "rates": fmt.Sprint(rates), "sources": nsrc, "capacity": capacity, "lost": lost, "first_ops": trace}
+	})
+}
+
+// Sources whose rate sets belong to three classes of period so far apart - an hour, a thousand hours, two hundred
+// thousand hours - that the order of their expiries is decided by the class under any lifetime that lies between one period
+// and a hundred periods plus a hundred seconds (an envelope, not the limiter's formula), and within a class by who
+// was seen last (accesses are two seconds or more apart, the run lasts minutes, so nothing expires). The tracked
+// source nearest to expiry is then known at every insertion into a full limiter, whatever the order in which the
+// sources came: entries are created and renewed with expiries that go up and down, in limiters large enough for the
+// expiry queue to have some depth. Each source's twin is a limiter of its own; the victim's twin starts afresh.
+func c14evictionRanked(r *simkit.Run) {
+	rt := r.T
+	guardRun = r
+	drawSrcBase(r.T)
+	capacity := rapid.IntRange(2, 9).Draw(rt, "capacity")
+	nsrc := capacity + rapid.IntRange(1, 6).Draw(rt, "extra-sources")
+	// in half of the runs a source sends one request per visit and its quota is one: an entry is then written once when
+	// it is created and not again until the source returns (a second request would renew it, and re-file it in the
+	// expiry queue, at once)
+	single := rapid.Bool().Draw(rt, "one-request-per-visit")
+	classes := []time.Duration{time.Hour, 1000 * time.Hour, 200_000 * time.Hour} // (beyond some 29 years of period the ttl map's expiry arithmetic leaves int64: see DESIGN, observations)
+	ps := map[string][]rateSpec{}
+	class := make([]int, nsrc)
+	for s := 0; s < nsrc; s++ {
+		class[s] = rapid.IntRange(0, len(classes)-1).Draw(rt, "period-class")
+		avg := int64(rapid.IntRange(1, 3).Draw(rt, "average"))
+		if single {
+			avg = 1
+		}
+		ps[srcName(s)] = []rateSpec{{classes[class[s]], avg, avg}}
+	}
+	_, unfreeze := freeze(rt)
+	defer unfreeze()
+	start := clock.Now()
+	perSourceRates = ps
+	defer func() { perSourceRates = nil }()
+	def := []rateSpec{{time.Second, 1, 1}}
+	A := newTLim(rt, def, capacity)
+	B := make([]*tlim, nsrc)
+	for i := range B {
+		B[i] = newTLim(rt, def, 1)
+	}
+	lastSeen := map[int]time.Duration{} // the tracked sources
+	h := simkit.NewHash()
+	var trace []string
+	evictions, outOfOrder := 0, 0
+	var lastExpiryRank [2]int64
+	nops := capacity + rapid.IntRange(3, 40).Draw(rt, "ops")
+	for i := 0; i < nops; i++ {
+		d := 2*time.Second + time.Duration(rapid.Int64Range(0, int64(2*time.Second)).Draw(rt, "dt"))
+		clock.Advance(d)
+		r.SimTime(d)
+		now := clock.Now().Sub(start)
+		s := rapid.IntRange(0, nsrc-1).Draw(rt, "src")
+		if _, tracked := lastSeen[s]; !tracked && len(lastSeen) >= capacity {
+			victim := -1
+			for x, t := range lastSeen {
+				if victim < 0 || class[x] < class[victim] || (class[x] == class[victim] && t < lastSeen[victim]) {
+					victim = x
+				}
+			}
+			delete(lastSeen, victim)
+			B[victim] = newTLim(rt, def, 1) // forgotten: it starts afresh
+			evictions++
+		}
+		lastSeen[s] = now
+		if rank := [2]int64{int64(class[s]), int64(now)}; rank[0] < lastExpiryRank[0] {
+			outOfOrder++ // this entry's expiry lies before that of the entry written just before it
+		} else {
+			lastExpiryRank = rank
+		}
+		lastExpiryRank = [2]int64{int64(class[s]), int64(now)}
+		for k := 0; k < 8; k++ {
+			name := srcName(s)
+			ra := A.do(name, 1)
+			rb := B[s].do(name, 1)
+			if len(trace) < 120 {
+				trace = append(trace, fmt.Sprintf("t=%v s%d(class %d) -> %d", now, s, class[s], ra.status))
+			}
+			h.Int(int64(s))
+			h.Int(int64(ra.status))
+			if !ra.same(rb) {
+				r.Tracef("trace: %v", trace)
+				r.Fail("eviction", "t=%v source s%d (period %v): limiter of capacity %d answered %d retry=%q; with only the tracked source nearest to expiry forgotten on each insertion into the full limiter the answer is %d retry=%q (periods by source %v, tracked now %v)",
+					now, s, classes[class[s]], capacity, ra.status, ra.retryHdr, rb.status, rb.retryHdr, class, lastSeen)
+			}
+			if ra.class() != ansAdmit || single {
+				break
+			}
+		}
+	}
+	r.SetDigest(uint64(h))
+	if evictions >= 1 {
+		r.Nontrivial()
+	}
+	r.ProbeN("evictions", evictions)
+	r.ProbeN("entry-written-with-an-earlier-expiry-than-the-one-before", outOfOrder)
+	r.Probe("rate-eviction-ranked")
+	r.Sample(func() any {
+		return map[string]any{"mode": "rate-eviction-ranked", "period_class_by_source": fmt.Sprint(class), "capacity": capacity, "evictions": evictions, "first_ops": trace}
 	})
 }
